@@ -241,3 +241,23 @@ Theorem run_chunked order forder o reads1 reads2 :
   run order forder o (reads1 ++ reads2) =
   fold_report (outcomes order forder o reads2) (run order forder o reads1).
 Proof. rewrite !run_as_fold. unfold outcomes. rewrite map_app. apply fold_report_app. Qed.
+
+(** every output file of a run over a chunked input is the concatenation, in chunk order, of the
+    files of the runs over the chunks; the record count adds up *)
+Theorem files_chunked order forder o (chunks : list (list read)) d :
+  records_of d (rep_files (run order forder o (concat chunks))) =
+  concat (map (fun c => records_of d (rep_files (run order forder o c))) chunks).
+Proof.
+  rewrite files_are_subsequences. induction chunks as [|c t IH]; [reflexivity|].
+  cbn [concat map]. unfold outcomes in *. rewrite map_app, filter_app, map_app, IH.
+  f_equal. rewrite files_are_subsequences. reflexivity.
+Qed.
+
+Theorem counts_chunked order forder o (chunks : list (list read)) :
+  rep_n (run order forder o (concat chunks)) = zsum_map (fun c => rep_n (run order forder o c)) chunks.
+Proof.
+  induction chunks as [|c t IH]; [reflexivity|]. cbn [concat]. rewrite zsum_map_cons, <- IH.
+  destruct (totals_add_up order forder o (c ++ concat t)) as [H1 _].
+  destruct (totals_add_up order forder o c) as [H2 _]. destruct (totals_add_up order forder o (concat t)) as [H3 _].
+  cbn zeta in *. rewrite H1, H2, H3. unfold zlen. rewrite app_length. lia.
+Qed.
